@@ -35,6 +35,13 @@ theorem feasible_iff (i : Inst) (as : List Nat) : feasible i as = true ↔ Feasi
   · rintro ⟨h1, h2, h3⟩
     exact ⟨⟨h1, fun k hk => h2 (k + 1) (by omega) (by omega)⟩, h3⟩
 
+/-- executable: feasible when every route load may exceed the capacity by at most `tol`
+(the rounding tolerance the property grants the checker) -/
+def feasibleWithin (tol : Int) (i : Inst) (as : List Nat) : Bool :=
+  as.all (fun a => decide (a ≤ i.n)) &&
+  (List.range i.n).all (fun k => as.count (k + 1) == 1) &&
+  (routes as).all (fun r => decide (routeLoad i r ≤ i.cap + tol))
+
 /-- Objective: total length of all routes, each driven depot → customers → depot. -/
 def objective (i : Inst) (as : List Nat) : Int := routesLen i.D as
 
